@@ -31,12 +31,12 @@ Theorem C14_terminates_refuted_before_fix :
 Proof. exact terminates_refuted. Qed.
 Print Assumptions C14_terminates_refuted_before_fix.
 
-(* Shape: the declared number of results n and exactly n lists, none empty (n = 0: no list) — for every entry kind
-   the resolver distinguishes except a signature registered under a node kind it does not handle (EnOther; see the
-   known finding "foreign_signature_node"). *)
+(* Shape: the declared number of results n and exactly n lists, none empty (n = 0: no list) — for every program,
+   every entry kind (own declaration, imported function asked of the importer, interface method, a signature
+   registered under any other node kind). *)
 Theorem C14_shape :
   forall (p : prog) (fuel : nat) (en : entry) (sigres : list rdecl) ls n,
-    en <> EnOther -> (forall f, en = EnBody f -> f < length p) ->
+    (forall f, en = EnBody f -> f < length p) ->
     results_of all_fixed p fuel en sigres = Ok (ls, n) ->
     n = length sigres /\ length ls = n /\ Forall (fun l => l <> []) ls.
 Proof. exact shape_fixed. Qed.
@@ -49,6 +49,14 @@ Theorem C14_shape_refuted_before_fix :
     ls = [] /\ n = length sigres /\ 0 < n.
 Proof. exact shape_refuted. Qed.
 Print Assumptions C14_shape_refuted_before_fix.
+
+(* ... and before the fallback at the end of Results: a function the importer calls as a dot-imported name, in
+   parentheses or through an alias gets no list either. *)
+Theorem C14_shape_refuted_before_fix_other :
+  forall (p : prog) (fuel : nat) (sigres : list rdecl),
+    sigres <> [] -> results_of unfixed p fuel EnOther sigres = Ok ([], length sigres) /\ 0 < length sigres.
+Proof. exact shape_refuted_other. Qed.
+Print Assumptions C14_shape_refuted_before_fix_other.
 
 (* No panic and soundness, on well-typed programs of the mini-language: ResultsOf does not panic, and every
    alternative reported for result i is a constant or assignable to the declared type of result i. *)
